@@ -34,4 +34,20 @@ for fn in sorted(os.listdir(pkg)):
                         visit([sub], prefix)
     visit(tree.body, "")
 json.dump(out, open(os.path.join(ROOT, "spec", "local_names.json"), "w"), indent=0, sort_keys=True)
+# every function of the reference tree (functions that are not listed here are treated as extracted helpers, sa/inline.py)
+fref = {}
+for fn in sorted(os.listdir(pkg)):
+    if not fn.endswith(".py"):
+        continue
+    tree = ast.parse(open(os.path.join(pkg, fn), encoding="utf-8").read())
+    names = []
+    for st in tree.body:
+        if isinstance(st, (ast.FunctionDef, ast.AsyncFunctionDef)):
+            names.append(st.name)
+        elif isinstance(st, ast.ClassDef):
+            for b in st.body:
+                if isinstance(b, (ast.FunctionDef, ast.AsyncFunctionDef)):
+                    names.append(st.name + "." + b.name)
+    fref[fn[:-3]] = sorted(set(names))
+json.dump(fref, open(os.path.join(ROOT, "spec", "functions_ref.json"), "w"), indent=0, sort_keys=True)
 print("functions:", len(out), "locals:", sum(len(v[0]) for v in out.values()))
